@@ -1,14 +1,70 @@
 (* C03 - Batch and block application is order-independent and deterministic.
-   Pinned statements only; proofs in STF/Proofs/Perm.v and STF/Proofs/MapLemmas.v.
+   Pinned statements only; proofs in STF/Proofs/PermAccept.v, STF/Proofs/Perm.v and STF/Proofs/MapLemmas.v.
    Determinism across runs and processes is definitional for the model (a Gallina function).  What has to be
    shown is that every place where the Rust iterates an unordered collection or reduces in parallel is
-   insensitive to the order.  Proved: for two ACCEPTED presentations of the same transactions the coin map,
-   the fee pool, the tips and the untouched fields coincide.  Not proved (evaluated by the harness on every
-   batch of the stream: all permutations up to 4 members, rotations above, rayon pools of 1 and 3 threads,
-   one-at-a-time application in dependency order): that acceptance itself is order-independent, and the
-   scheduling clause, which no theorem about a sequential model can exhibit. *)
-From MelVerif Require Import STF.Model STF.Proofs.MapLemmas STF.Proofs.Faucet STF.Proofs.Coins STF.Proofs.Fees STF.Proofs.Perm.
+   insensitive to the order.
+   PROVED for all inputs ([C03_order_independent]): if one presentation of a set of transactions is accepted
+   then every permutation of it is accepted WITH THE SAME STATE (all twelve components: coins, counts,
+   transaction set, fee pool, tips, stakes, speed, and the untouched ones), under the hash-oracle assumptions
+   [HashOK] and the counts invariant of C20 when TIP-906 is active.  By symmetry a presentation is rejected
+   iff every permutation is.
+   PROVED for all inputs ([C03_equals_one_at_a_time]): the outcome also equals applying the transactions one
+   at a time (each as a batch of one) in any order in which no transaction spends an output of itself or of a
+   later one - acceptance and the resulting state, in both directions.
+   NOT proved: the scheduling clause (rayon pools of 1 and 3 threads are run by the harness on every batch of
+   the stream); no theorem about a sequential model can exhibit a thread schedule. *)
+From MelVerif Require Import STF.Model STF.Proofs.MapLemmas STF.Proofs.Faucet STF.Proofs.Coins STF.Proofs.Fees STF.Proofs.Perm
+  STF.Proofs.Counts STF.Proofs.HashFacts STF.Proofs.PermAccept STF.Proofs.SeqApply STF.Proofs.Witness.
 Open Scope N_scope.
+
+(* acceptance and the whole successor state do not depend on the order of presentation *)
+Theorem C03_order_independent : forall SO s lh txs1 txs2 s1,
+  Permutation txs1 txs2 ->
+  HashOK SO s txs1 ->
+  (tip_906 s = true -> CountsOk (s_coins s, s_counts s)) ->
+  s_fee_pool s <= MAX128 -> s_tips s <= MAX128 ->
+  apply_tx_batch SO s lh txs1 = Ok s1 -> apply_tx_batch SO s lh txs2 = Ok s1.
+Proof. exact batch_order_independent. Qed.
+Print Assumptions C03_order_independent.
+
+(* the hash-oracle assumptions are themselves order-free, so the theorem applies in both directions *)
+Theorem C03_assumptions_order_free : forall SO s txs1 txs2, Permutation txs1 txs2 -> HashOK SO s txs1 -> HashOK SO s txs2.
+Proof. exact HashOK_perm. Qed.
+Print Assumptions C03_assumptions_order_free.
+
+(* the outcome equals the one-at-a-time application ([seq_apply]: each transaction as a batch of one, on the
+   state left by the previous one) of any presentation in dependency order ([dep_ordered]: no transaction
+   spends an output of itself or of a later member); input indices are bytes, as in the wire format *)
+Theorem C03_equals_one_at_a_time : forall SO lh txs txs' s s',
+  Permutation txs txs' -> dep_ordered txs' ->
+  HashOK SO s txs ->
+  (tip_906 s = true -> CountsOk (s_coins s, s_counts s)) ->
+  s_fee_pool s <= MAX128 -> s_tips s <= MAX128 ->
+  (forall t i, In t txs -> In i (t_inputs t) -> snd i < 256) ->
+  (apply_tx_batch SO s lh txs = Ok s' <-> seq_apply SO lh s txs' = Ok s').
+Proof. exact batch_equals_any_sequential_order. Qed.
+Print Assumptions C03_equals_one_at_a_time.
+
+(* the head/tail split it is built from: a batch whose first member spends no output of the batch is the
+   first member alone followed by the rest *)
+Theorem C03_split_head : forall SO lh s t r s',
+  SplitOK SO s t r -> apply_tx_batch SO s lh (t :: r) = Ok s' ->
+  exists s1, apply_tx_batch SO s lh [t] = Ok s1 /\ apply_tx_batch SO s1 lh r = Ok s'.
+Proof. exact batch_cons_fwd. Qed.
+Print Assumptions C03_split_head.
+
+(* a concrete batch with an in-batch dependency (the transfer spends a faucet of the same batch) meets every
+   hypothesis, and its reversal is a permutation of it *)
+Example C03_witness :
+  HashOK w_oracle w_state w_batch /\ (tip_906 w_state = true -> CountsOk (s_coins w_state, s_counts w_state)) /\
+  s_fee_pool w_state <= MAX128 /\ s_tips w_state <= MAX128 /\
+  Permutation w_batch [w_t3; w_f2; w_f1] /\ (exists s', apply_tx_batch w_oracle w_state w_header w_batch = Ok s') /\
+  dep_ordered w_batch /\ (forall t i, In t w_batch -> In i (t_inputs t) -> snd i < 256) /\
+  exists s', seq_apply w_oracle w_header w_state w_batch = Ok s'.
+Proof.
+  split; [exact w_hash_ok|]. split; [exact w_counts_ok|]. split; [vm_compute; discriminate|]. split; [vm_compute; discriminate|].
+  split; [exact w_perm|]. split; [exact w_accepted|]. split; [exact w_dep_ordered|]. split; [exact w_indices|exact w_sequential].
+Qed.
 
 Theorem C03_coins_order_independent : forall SO s lh txs1 txs2 s1 s2,
   Permutation txs1 txs2 ->
